@@ -113,6 +113,11 @@ func (w *dnsWorld) c08AfterOp(op *dnsOp) {
 					for _, rr := range m.Answer {
 						if ttl := time.Duration(rr.Header().Ttl); ttl > remaining+15+1 {
 							cls := ""
+							for _, o := range w.ops {
+								if o != op && o.key == op.key && o.task != "" && o.startStep <= w.s.Step && (!o.done || o.endStep >= op.startStep) {
+									cls = "@concurrent-lookups"
+								}
+							}
 							if caseCls != "" {
 								cls = "@" + caseCls
 							}
@@ -134,10 +139,10 @@ func (w *dnsWorld) c08AfterOp(op *dnsOp) {
 	pre := op.pre
 	if pre == nil {
 		// was the entry dropped although its stale window was still open?
-		if last := w.track.latest(op.key); last != nil && last.removed && !last.replaced && last.removedAt <= op.start && last.removeCtx != "shutdown" && last.removeCtx != "rejected-question" {
+		if last := w.track.latest(op.key); last != nil && last.removed && !last.replaced && last.removedAt <= op.start && last.removeCtx != "shutdown" && last.cause(w) != "rejected-question" {
 			if dl, ok := last.deadline(w); ok && w.inStaleWindow(dl, op.start, op.end) && last.removedAt < w.windowEnd(dl)-dnsMargin && !w.lruMayEvict(last) && op.chain != nil {
-				s.Failf("c08-stale-not-served@entry-dropped-"+last.removeCtx, "client c%d asked %v at %v, inside the stale window of answer a%v (deadline %v, window %ds), and had to wait for upstream query #%d: the entry had been dropped at %v (%s)",
-					op.cli, op.key, op.start, last.ids, dl, w.cfg.staleTtl, op.chain.queries[0].seq, last.removedAt, last.removeCtx)
+				s.Failf("c08-stale-not-served@entry-dropped-at-"+last.cause(w), "client c%d asked %v at %v, inside the stale window of answer a%v (deadline %v, window %ds), and had to wait for upstream query #%d: the entry had been dropped at %v (%s)",
+					op.cli, op.key, op.start, last.ids, dl, w.cfg.staleTtl, op.chain.queries[0].seq, last.removedAt, last.cause(w))
 			}
 		}
 		return
@@ -181,7 +186,7 @@ func (w *dnsWorld) c08OnRemoved(gone []*dnsEntryObs, before int) {
 		return
 	}
 	for _, r := range gone {
-		if r.replaced || !r.keyOK || r.removeCtx != "background" {
+		if r.replaced || !r.keyOK {
 			continue
 		}
 		if len(w.lruBatch) == 0 {
@@ -213,8 +218,8 @@ func (w *dnsWorld) c08FlushLRU() {
 		return
 	}
 	for _, r := range batch {
-		if dl, ok := r.deadline(w); ok && w.cfg.staleTtl > 0 && w.lruAt >= w.windowEnd(dl)-dnsMargin {
-			continue // time based eviction
+		if r.cause(w) != "lru" {
+			continue
 		}
 		ru, okr := w.track.lastUse[r.key]
 		if !okr {
